@@ -306,6 +306,22 @@ def conveyor(props=("C12", "C13"), kind="cconv", acc=1, cap=3, n_items=3, consum
             env.process(producer2())
             env.process(consumer2())
 
+        if "C04" in F.props:
+            from .m2s import has_room_for, conv_watch
+            F.conv_stalled_since_put = {}
+            F.step_hooks.append(conv_watch)
+
+            def c04_instant(F):
+                # at the end of an instant nobody may be left waiting for something the belt can give (ledger view, conservative admission rules)
+                ctx.hit("C04:belt-checked")
+                if any(not t.granted for t in F.standing(e, "put")) and has_room_for(F, e, None):
+                    F.soft(f"C04:space-request-pending-although-the-belt-can-take-an-item@{tag}", {"now": F.env.now})
+                ready = F.store_of(e).ready_items
+                n_granted = sum(1 for t in F.standing(e, "get") if t.granted)
+                if any(not t.granted for t in F.standing(e, "get")) and len(ready) > n_granted:
+                    F.soft(f"C04:retrieval-pending-although-an-item-waits-at-the-exit@{tag}", {"now": F.env.now})
+            F.instant_hooks.append(c04_instant)
+
         def cap_monitor(F):
             if F.occupancy(e) > capacity:
                 F.soft(f"C12:more-than-capacity-items-on-the-belt@{tag}", {"occ": F.occupancy(e)})
